@@ -10,6 +10,7 @@ loads as an empty registry.  Also through Gateway.__aenter__.
 from __future__ import annotations
 
 import copy
+import itertools
 import json
 import os
 import shutil
@@ -64,6 +65,46 @@ RAW = [b"", b" ", b"\n", b"[", b"{", b"{}", b"[]", b"null", b"1", b'"x"', b"true
        b'{"1": null}', b'{"1": []}', b'{"1": {"node_id": 1}}', b'{"1": {"node_id": 1, "node_type": 1, "protocol_version": "1", "x": 1}}']
 
 
+def code_dictionary() -> list[str]:
+    """String constants of the modules that read persistence files (the usual fuzzing dictionary): key names the loader
+    gives a meaning to - also ones no valid file written by save() contains - are found here."""
+    import types
+
+    import aiomysensors.model.node as node_module
+    import aiomysensors.persistence as persistence_module
+
+    found: set[str] = set()
+
+    def walk(code: types.CodeType) -> None:
+        for const in code.co_consts:
+            if isinstance(const, str) and 1 <= len(const) <= 24 and const.replace("_", "").isalnum():
+                found.add(const)
+            elif isinstance(const, types.CodeType):
+                walk(const)
+            elif isinstance(const, (tuple, frozenset)):
+                for item in const:
+                    if isinstance(item, str) and 1 <= len(item) <= 24 and item.replace("_", "").isalnum():
+                        found.add(item)
+
+    for module in (persistence_module, node_module):
+        for value in vars(module).values():
+            if isinstance(value, str) and 1 <= len(value) <= 24 and value.replace("_", "").isalnum():
+                found.add(value)  # module-level constants such as key names
+            elif isinstance(value, (tuple, list, set, frozenset)):
+                found.update(v for v in value if isinstance(v, str) and 1 <= len(v) <= 24 and v.replace("_", "").isalnum())
+            if isinstance(value, types.FunctionType) and value.__module__ == module.__name__:
+                walk(value.__code__)
+            elif isinstance(value, type) and value.__module__ == module.__name__:
+                for attr_name, attr in vars(value).items():
+                    found.add(attr_name) if attr_name.replace("_", "").isalnum() and not attr_name.startswith("__") else None
+                    func = getattr(attr, "__func__", attr)
+                    if isinstance(func, types.FunctionType):
+                        walk(func.__code__)
+                    for fn in vars(getattr(value, "_hooks", None) or {}) if False else ():
+                        _ = fn
+    return sorted(found)
+
+
 def paths(obj, pre=()):
     yield pre
     if isinstance(obj, dict):
@@ -108,6 +149,21 @@ def documents(ctx):
             yield f"{base_name}:prefix{cut}", text[:cut]
     for i, raw in enumerate(RAW):
         yield f"raw{i}", raw
+    # dictionary-guided shapes: every name the loader's code mentions as a key at the top level, in a node record and in
+    # a child record, alone and in pairs, with well- and ill-shaped values
+    words = code_dictionary()
+    ctx.obs("code-dictionary-words", len(words))
+    shapes = [None, True, 1, "x", [], [1], {}, {"1": 1}, {"1": NATIVE["1"]}, NATIVE]
+    for word in words:
+        for value in shapes:
+            yield f"dict-top-{word}", json.dumps({word: value}).encode()
+            yield f"dict-top-plus-{word}", json.dumps({**NATIVE, word: value}).encode()
+            yield f"dict-node-{word}", json.dumps({"1": {**NATIVE["1"], word: value}}).encode()
+            yield f"dict-child-{word}", json.dumps({"1": {**NATIVE["1"], "children": {"1": {**NATIVE["1"]["children"]["1"], word: value}}}}).encode()
+    for a, b in itertools.combinations(words, 2):
+        for value in ([], None, {"1": NATIVE["1"]}, 1):
+            yield f"dict-pair-{a}-{b}", json.dumps({a: 1, b: value}).encode()
+            yield f"dict-pair-{b}-{a}", json.dumps({b: 1, a: value}).encode()
     # nesting-depth ladder at every position a value can take (json.loads, schema hooks, copies may each have
     # their own recursion limit)
     for depth in (10, 50, 100, 200, 300, 400, 500, 600, 700, 800, 900, 1000, 1200, 1500, 2000, 3000, 5000, 20000):
